@@ -1,6 +1,7 @@
 package checks
 
 import (
+	"encoding/json"
 	"fmt"
 	"os"
 	"testing"
@@ -18,4 +19,34 @@ func TestSelf(t *testing.T) {
 
 func exit(code int) {
 	os.Exit(code)
+}
+
+type replay struct {
+	raw map[string]json.RawMessage
+}
+
+// replayFile loads the violation file named by VERIF_REPLAY (nil when not replaying).
+func replayFile() *replay {
+	p := os.Getenv("VERIF_REPLAY")
+	if p == "" {
+		return nil
+	}
+	b, err := os.ReadFile(p)
+	if err != nil {
+		fmt.Println("cannot read replay:", err)
+		os.Exit(2)
+	}
+	r := &replay{}
+	if err := json.Unmarshal(b, &r.raw); err != nil {
+		fmt.Println("bad replay file:", err)
+		os.Exit(2)
+	}
+	return r
+}
+
+func (r *replay) decode(v interface{}) {
+	if err := json.Unmarshal(r.raw["replay"], v); err != nil {
+		fmt.Println("bad replay payload:", err)
+		os.Exit(2)
+	}
 }
